@@ -1,8 +1,12 @@
 import Driver.Proto
+import Driver.C09Xml
+import Driver.C09Css
+import Driver.C09Html
+import Driver.C09Js
 /-! driver handlers for property C09 (ops `model.*`, `spec.*`, `trig.*`) -/
 namespace Verif.Driver.C09
 open Verif Verif.Driver
 
-def handlers : List (String × Handler) := []
+def handlers : List (String × Handler) := C09Xml.handlers ++ C09Css.handlers ++ C09Html.handlers ++ C09Js.handlers
 
 end Verif.Driver.C09
